@@ -34,6 +34,28 @@ def rewrite(text, dec, thou, rng):
     return NUM.sub(rep, text)
 
 
+INT = re.compile(r"(?<![\w.,:/#x])\d{4,}(?![\w.,:%])")
+
+
+def mark_ints(text, rng):
+    """choose integer literals (no fraction) of four and more digits that will be written with the thousands separator"""
+    return INT.sub(lambda m: ("\x01" + m.group(0) + "\x02") if rng.random() < 0.6 else m.group(0), text)
+
+
+def render_ints(text, thou):
+    def rep(m):
+        ip = m.group(1)
+        if not thou:
+            return ip
+        g = []
+        while len(ip) > 3:
+            g.insert(0, ip[-3:])
+            ip = ip[:-3]
+        g.insert(0, ip)
+        return thou.join(g)
+    return re.sub("\x01(\\d+)\x02", rep, text)
+
+
 UNITS = ["mm", "cm", "dm", "m", "dam", "hm", "km", "mg", "cg", "dg", "g", "dag", "hg", "kg", "tonne", "bit", "byte", "kb", "mb", "gb", "tb",
          "inch", "ft", "yard", "furlong", "mile", "oz", "lb", "stone"]
 FAM = {u: f for f, us in {"len": ["mm", "cm", "dm", "m", "dam", "hm", "km", "inch", "ft", "yard", "furlong", "mile"],
@@ -59,13 +81,15 @@ def run(ctx, model_ok):
         t = gen_line(rng)
         # the spelling 'Month day, year' uses ',' as punctuation: only meaningful where ',' is a separator
         t = COMMA_DATE.sub(r"\1 \2", t)
-        base.append(t)
+        base.append(mark_ints(t, rng))
+    marked = base
+    base = [render_ints(t, ".") for t in marked]
     ops = [{"op": "exec", "lang": "en", "text": t} for t in base]
     r0 = C.run_impl(ops)
     ops2, idx = [], []
     for bi, t in enumerate(base):
         for (dec, thou) in rng.sample(CONV, 2 if ctx.quick() else 4):
-            t2 = rewrite(t, dec, thou, rng)
+            t2 = render_ints(rewrite(marked[bi], dec, thou, rng), thou)
             ops2.append({"op": "cfg", "dec": dec, "thou": thou})
             ops2.append({"op": "exec", "lang": "en", "text": t2})
             idx.append((bi, dec, thou, t2))
@@ -73,7 +97,7 @@ def run(ctx, model_ok):
     r2 = C.run_impl(ops2)
     for j, (bi, dec, thou, t2) in enumerate(idx):
         a, b = r0[bi], r2[2 * j + 1]
-        nontrivial = ("," in base[bi]) or (" to " in base[bi])
+        nontrivial = ("," in base[bi]) or (" to " in base[bi]) or ("\x01" in marked[bi])
         ctx.seen((t2, dec, thou), nontrivial)
         ctx.count(f"conv:{dec}{thou or '∅'}")
         if "lines" not in a or "lines" not in b:
